@@ -96,8 +96,13 @@ def single_tables(hdr_wrapper, nested=True, cells=BASE_CELLS, extra_cells=(["e"]
     return out
 
 
-def docs(hdr_wrapper, nested=True):
-    out = [[t] for t in single_tables(hdr_wrapper, nested)]
+# paragraph item kinds: "p" text in a run that is a direct child of the paragraph, "e" a run without text, "m" a paragraph mark only
+# (no run at all), "h" the run sits inside a wrapper element of the paragraph (w:hyperlink / w:ins / w:smartTag / w:sdt ...)
+RUN_CELLS = (["e"], ["p", "e"], ["m"], ["h"], ["p", "h"], ["p", "m", "p"], ["h", "m"])
+
+
+def docs(hdr_wrapper, nested=True, extra_cells=None):
+    out = [[t] for t in (single_tables(hdr_wrapper, nested) if extra_cells is None else single_tables(hdr_wrapper, nested, extra_cells=extra_cells))]
     out += [["p", t] for t in (T([[["p"]]]), T([[["p"], ["p"]]]))]
     small = (T([[["p"]]]), T([[["p"], ["p"]]]), T([[["p"]], [["p"]]]))
     for a in small:
@@ -138,8 +143,10 @@ def features(doc):
                     f.add("empty_cell")
                 if len(ps) > 1:
                     f.add("multi_par")
-                if "e" in ps:
+                if "e" in ps or "m" in ps:
                     f.add("empty_par")
+                if "h" in ps:
+                    f.add("wrapped_runs")
                 if "s" in ps:
                     f.add("inline_markup")
                 if "/" in ps:
@@ -157,7 +164,7 @@ def txt(path):
 
 
 def par_text(item, path):
-    return z3.StringVal("") if item == "e" else txt(path)
+    return z3.StringVal("") if item in ("e", "m") else txt(path)
 
 
 def tables_in_order(doc):
@@ -444,7 +451,16 @@ P_ = "{http://schemas.openxmlformats.org/presentationml/2006/main}"
 
 
 def build_xml_tree(doc, root_tag, tags):
-    """tags: dict p, table, row, cell, hdr (wrapper tag or None)"""
+    """tags: dict p, table, row, cell, hdr (wrapper tag or None), run / run_wrapper (formats whose paragraph text sits in run children:
+    "p" / "e" = a run that is a direct child of the paragraph, "h" = a run inside a wrapper child, "m" = no run at all)"""
+    def leaf(tag, text_term, item="p"):
+        n = CNode(tag)
+        if tags.get("run") and tag == tags["p"] and item != "m":
+            r = CNode(tags["run"])
+            n = CNode(tag, children=[CNode(tags["run_wrapper"], children=[r])] if item == "h" else [r])
+        n.ptext = text_term
+        return n
+
     def table(t, path):
         rows = []
         for ri, r in enumerate(t["rows"]):
@@ -453,7 +469,7 @@ def build_xml_tree(doc, root_tag, tags):
                 items = []
                 for ii, it in enumerate(c):
                     ip = f"{path}.r{ri}c{ci}i{ii}"
-                    items.append(table(it, ip) if is_table(it) else leaf(tags["p"], par_text(it, ip)))
+                    items.append(table(it, ip) if is_table(it) else leaf(tags["p"], par_text(it, ip), it))
                 cells.append(CNode(tags["cell"], children=items))
             rows.append(CNode(tags["row"], children=cells))
         if t["hdr"] and tags.get("hdr"):
@@ -469,7 +485,7 @@ def nl_rule(cell, path):
     return join_terms(NL, own_paragraph_texts(cell, path))
 
 
-DOCX_TAGS = {"p": W + "p", "table": W + "tbl", "row": W + "tr", "cell": W + "tc", "hdr": None}
+DOCX_TAGS = {"p": W + "p", "table": W + "tbl", "row": W + "tr", "cell": W + "tc", "hdr": None, "run": W + "r", "run_wrapper": W + "hyperlink"}
 ODF_TAGS = {"p": ODF_X + "p", "table": ODF_T + "table", "row": ODF_T + "table-row", "cell": ODF_T + "table-cell", "hdr": ODF_T + "table-header-rows"}
 
 
@@ -487,7 +503,7 @@ def w_docx(repo, tier):
             r = to_py(s, v)
             out.append((s.pc, r[0] if isinstance(r, list) and len(r) == 2 else r, want))
         return out, [(s.pc, e) for (s, e) in raises]
-    return run_walker("C13/docx_extractor.py::_extract_tables_from_context", DOCX, docs(False), one)
+    return run_walker("C13/docx_extractor.py::_extract_tables_from_context", DOCX, docs(False, extra_cells=RUN_CELLS), one)
 
 
 def w_odt(repo, tier):
